@@ -31,6 +31,43 @@ Example C06_abort_invisible_ex :
   visible (run cat_2a true (Start :: map Ins [1; 11; 43] ++ [Abort]) s) = [41].
 Proof. vm_compute. repeat split; reflexivity. Qed.
 
+(* ---- clause 1 under FAULTS: the transport delete inside NewPack.abort() fails (upload/ gone,
+   transport error), abort_write_group called with or without suppress_errors.  For every state
+   outside a write group and EVERY insertion sequence: nothing of the group is visible on disk
+   or to the object, the object can start its next write group, and the state is exactly that
+   of the non-faulting abort. *)
+Theorem C06_abort_fault_invisible :
+  forall C is_gc s ks sup, wg s = None -> broken s = false ->
+    let s' := run C is_gc (Start :: map Ins ks ++ [AbortF sup]) s in
+    listed s' = listed s /\ upload s' = upload s /\ visible s' = visible s /\ view s' = view s /\
+    wg s' = None /\ broken s' = false /\ resident s' = resident s /\
+    snd (step C is_gc Start s') = ROk /\
+    s' = run C is_gc (Start :: map Ins ks ++ [Abort]) s.
+Proof. exact abort_fault_invisible. Qed.
+Print Assumptions C06_abort_fault_invisible.
+
+Example C06_abort_fault_ex :
+  let s := run cat_knit false [Start; Ins 41; Commit] init in
+  view (run cat_knit false (Start :: map Ins [42; 1] ++ [AbortF true]) s) = [41] /\
+  snd (step cat_knit false (AbortF false) (run cat_knit false [Start; Ins 42] s)) = RErr ETransport.
+Proof. vm_compute. split; reflexivity. Qed.
+
+(* ... but NOT for a RESUMED write group: the exception leaves _abort_write_group before the loop
+   over the resumed packs, which stay in the object's indices and in _resumed_packs; the model
+   makes no claim about the object afterwards (broken).  On the real code the next commit of the
+   object publishes them: candidate finding C06-abort-fault-skips-resumed-packs *)
+Theorem C06_abort_fault_resumed_partial :
+  exists ops sup,
+    let s := run cat_2a true ops init in
+    (exists w, wg s = Some w /\ wres w <> []) /\
+    broken (fst (step cat_2a true (AbortF sup) s)) = true /\
+    broken (fst (step cat_2a true Abort s)) = false.
+Proof.
+  exists [Start; Ins 51; Suspend; Resume [TName [51]]; Ins 41], true. vm_compute.
+  repeat split. eexists. split; [reflexivity|intro H; discriminate H].
+Qed.
+Print Assumptions C06_abort_fault_resumed_partial.
+
 (* abort of a RESUMED write group: pack-names unchanged; exactly the resumed packs leave upload/ *)
 Theorem C06_abort_resumed :
   forall C is_gc s ts r ks, wg s = None -> broken s = false ->
